@@ -15,7 +15,7 @@ import numpy as np
 
 from . import models, observe, oracles, world as worldmod
 
-STEP_ALARM_S = 10
+STEP_ALARM_S = 30  # generous: a loaded machine must never turn a slow step into an alarm
 
 
 class StepTimeout(BaseException):
@@ -406,12 +406,13 @@ class Sim:
         self.pre = pre
         out = {"cls": "skipped"}
         old = signal.signal(signal.SIGALRM, _alarm_handler)
-        signal.alarm(STEP_ALARM_S * (60 if op.get("sweep") else 1))
+        io_op = op["op"] in ("save", "export", "reimport", "restart")
+        signal.alarm(STEP_ALARM_S * (60 if op.get("sweep") else (4 if io_op else 1)))
         try:
             out = handler(op) or {"cls": "skipped"}
         except StepTimeout:
             signal.alarm(0)
-            self.violate(self.opts.get("own", "hang"), "hang", f"step did not return within {STEP_ALARM_S}s: {op}", op)
+            self.violate(self.opts.get("own", "hang"), "hang", f"step did not return within its time limit ({STEP_ALARM_S}s base): {op}", op)
             raise RunAbort("hang")
         finally:
             signal.alarm(0)
